@@ -482,6 +482,278 @@ def gen_temporal(rng):
             "temporal": True}
 
 
+
+# ------------------------------------------------------------------ pre-filled stores (strengthened, round 3)
+WRAPS = ["tee-over", "merged-over", "rerun"]
+
+
+def gen_prefilled(rng):
+    """The caller's store already holds facts before the evaluation: base facts in the
+    store instead of the program text, among them facts of DERIVED predicates which the
+    program derives again (or states again as initial facts), and on top aggregating rules
+    with duplicate-sensitive reducers (fn:count, fn:sum over integers) whose single body atom
+    is that re-derived predicate (the fast path reads the store's GetFacts rows directly), so
+    that a store which keeps / delivers a fact twice changes the fact SET. Metamorphic only."""
+    X, Y, Z = dc.var(1), dc.var(2), dc.var(3)
+    ty = "N" if rng.random() < 0.6 else "A"
+
+    def val():
+        return dc.num(rng.randint(1, 6)) if ty == "N" else dc.name(rng.choice(dc.NAMES))
+    e1, e2, d1, d2, e3 = 0, 1, 2, 3, 4
+    facts = {e1: [], e2: []}
+    seen = set()
+    for _ in range(rng.randint(3, 6)):
+        f = dc.fact(e1, val())
+        if json.dumps(f) not in seen:
+            seen.add(json.dumps(f))
+            facts[e1].append(f)
+    for _ in range(rng.randint(2, 6)):
+        f = dc.fact(e2, val(), dc.num(rng.randint(1, 5)))
+        if json.dumps(f) not in seen:
+            seen.add(json.dumps(f))
+            facts[e2].append(f)
+    clauses = [{"head": dc.atom(d1, X), "body": [["atom", dc.atom(e1, X)]], "let": []}]
+    if rng.random() < 0.4:
+        clauses.append({"head": dc.atom(d1, X), "body": [["atom", dc.atom(e2, X, Y)]], "let": []})
+    layers = [[d1]]
+    deriv = {d1: [dc.fact(d1, f["args"][0]) for f in facts[e1]]}
+    have_d2 = rng.random() < 0.7
+    if have_d2:
+        clauses.append({"head": dc.atom(d2, X, Y), "body": [["atom", dc.atom(e2, X, Y)]] +
+                        ([["atom", dc.atom(d1, X)]] if rng.random() < 0.5 else []), "let": []})
+        x = rng.random()
+        if x < 0.3 and ty == "N":
+            clauses.append({"head": dc.atom(d2, X, Z), "body": [["atom", dc.atom(d2, X, Y)], ["atom", dc.atom(e2, Y, Z)]],
+                            "let": []})
+        elif x < 0.6 and ty == "N":
+            # TWO recursive clauses of one predicate which have to alternate (e2 step, e3 step, e2 step, ...)
+            facts[e3] = [dc.fact(e3, dc.num(a), dc.num(a + 1)) for a in (2, 4)]
+            for a in (1, 3, 5):
+                f = dc.fact(e2, dc.num(a), dc.num(a + 1))
+                if json.dumps(f) not in seen:
+                    seen.add(json.dumps(f))
+                    facts[e2].append(f)
+            for e in (e2, e3):
+                clauses.append({"head": dc.atom(d2, X, Z), "body": [["atom", dc.atom(d2, X, Y)], ["atom", dc.atom(e, Y, Z)]],
+                                "let": []})
+        layers.append([d2])
+        deriv[d2] = [dc.fact(d2, *f["args"]) for f in facts[e2]]
+    # aggregating top layer: single body atom = the re-derived predicate
+    nextp = 5
+    top = []
+    N, S = 20, 21
+
+    def agg(body, group, lets):
+        nonlocal nextp
+        head = dc.atom(nextp, *([dc.var(g) for g in group] + [dc.var(l[0]) for l in lets]))
+        clauses.append({"head": head, "body": body, "let": [], "do": {"group": group, "lets": lets}})
+        top.append(nextp)
+        nextp += 1
+    lets = [[N, "fn:count", []]]
+    if ty == "N" and rng.random() < 0.6:
+        lets.append([S, "fn:sum", [1]])
+    agg([["atom", dc.atom(d1, X)]], [], lets)
+    if have_d2:
+        lets = [[N, "fn:count", []]] if rng.random() < 0.6 else []
+        if not lets or rng.random() < 0.6:
+            lets.append([S, rng.choice(["fn:sum", "fn:sum", "fn:max"]), [2]])
+        agg([["atom", dc.atom(d2, X, Y)]], [1] if rng.random() < 0.7 else [], lets)
+    if rng.random() < 0.4:
+        # a two-premise body goes through an internal predicate first
+        agg([["atom", dc.atom(d1, X)], ["atom", dc.atom(e1, X)]], [], [[N, "fn:count", []]])
+    layers.append(top)
+    # where the facts live
+    init, pre = [], []
+    mode = rng.choice(["all-pre", "all-pre", "split", "derived-only"])
+    for p in sorted(facts):
+        for f in facts[p]:
+            (pre if mode == "all-pre" or (mode == "split" and rng.random() < 0.5) else init).append(f)
+    for p, fs in deriv.items():
+        fs = list(fs)
+        rng.shuffle(fs)
+        k = rng.randint(1, len(fs)) if fs else 0
+        for f in fs[:k]:
+            if json.dumps(f) not in seen:
+                seen.add(json.dumps(f))
+                pre.append(f)
+                if rng.random() < 0.2:
+                    init.append(f)          # stated again in the text as well
+    if rng.random() < 0.5:
+        f = dc.fact(d1, val())              # a fact of the derived predicate that may not be derivable
+        if json.dumps(f) not in seen:
+            seen.add(json.dumps(f))
+            pre.append(f)
+    rng.shuffle(pre)
+    rng.shuffle(init)
+    rng.shuffle(clauses)
+    return {"clauses": clauses, "layers": layers, "init": init, "pre": pre, "features": ["aggregate", "prefilled"],
+            "nomodel": True}
+
+
+def pres_intext(prog):
+    """Every fact of the caller's store written into the program text instead (empty store)."""
+    q = dict(prog)
+    seen = set(json.dumps(f) for f in prog["init"])
+    q["init"] = prog["init"] + [f for f in prog["pre"] if json.dumps(f) not in seen]
+    q["pre"] = []
+    p = pres_base(q)
+    p.kind = "intext"
+    return p
+
+
+# ------------------------------------------------------------------ one atom, many intervals (strengthened, round 3)
+import datetime as _dt
+
+NOW_DAY = 31                       # NOW = 2024-02-01 = day 31 counted from 2024-01-01
+
+
+def day(k):
+    return (_dt.date(2024, 1, 1) + _dt.timedelta(days=k)).isoformat()
+
+
+def gen_intervals(rng, n):
+    """n distinct intervals [lo, hi] in days (0..85), of one of the shapes disjoint / overlapping /
+    nested / touching / random."""
+    shape = rng.choice(["disjoint", "disjoint", "overlap", "nested", "touch", "random"])
+    out = []
+    if shape == "nested":
+        lo, hi = rng.randint(0, 20), rng.randint(60, 85)
+        for _ in range(n):
+            out.append((lo, hi))
+            lo += rng.randint(1, 4)
+            hi -= rng.randint(1, 4)
+    elif shape == "random":
+        while len(out) < n:
+            a = rng.randint(0, 80)
+            iv = (a, a + rng.randint(0, 12))
+            if iv not in out:
+                out.append(iv)
+    else:
+        a = rng.randint(0, 12)
+        for _ in range(n):
+            ln = rng.randint(1, 6)
+            out.append((a, a + ln))
+            a += {"disjoint": ln + rng.randint(1, 8), "overlap": rng.randint(1, ln), "touch": ln}[shape]
+    return shape, out
+
+
+def gen_temporal_multi(rng):
+    """ONE ground atom with 3..6 validity intervals (plus a second atom with 1..4), and for
+    every stored interval at least one rule that asks for a concrete sub-interval / instant /
+    operator window lying inside that interval: `h(X) :- on(X)@[c1, c2]`, `@[c]`,
+    `<-[d1, d2] on(X)`, `<+[d1, d2] on(X)`, `[-`, `[+` (evaluation time fixed at 2024-02-01).
+    The base text lists the intervals in ascending / descending / mixed start order; the
+    presentations permute the base facts (all orders for three intervals). Metamorphic only."""
+    X, S, E = dc.var(1), dc.var(4), dc.var(5)
+    tS, tE = ["tvar", 4], ["tvar", 5]
+    on, other = 0, 1
+    atoms = [dc.name("/lamp") if rng.random() < 0.5 else dc.num(rng.randint(1, 4))]
+    n = rng.choice([3, 3, 4, 5, 6])
+    shape, ivs = gen_intervals(rng, n)
+    order = rng.choice(["asc", "desc", "desc", "mixed"])
+    ivs.sort()
+    if order == "desc":
+        ivs.reverse()
+    elif order == "mixed":
+        rng.shuffle(ivs)
+    init = [{"p": on, "args": [atoms[0]], "iv": [day(a), day(b)]} for a, b in ivs]
+    second = None
+    if rng.random() < 0.6:
+        second = dc.name("/fan") if atoms[0][0] != "name" or rng.random() < 0.5 else dc.num(7)
+        _sh, iv2 = gen_intervals(rng, rng.randint(1, 4))
+        if rng.random() < 0.5:
+            iv2.sort(reverse=True)
+        extra = [{"p": on, "args": [second], "iv": [day(a), day(b)]} for a, b in iv2]
+        if rng.random() < 0.5:
+            init += extra
+        else:                       # interleaved
+            for f in extra:
+                init.insert(rng.randint(0, len(init)), f)
+    init.append({"p": other, "args": [atoms[0]], "iv": None})
+    clauses, layers = [], []
+    nextp = 2
+    feats = set(["multi-interval", "order-" + order, "shape-" + shape])
+
+    def rule(head_args, body, ht=None):
+        nonlocal nextp
+        c = {"head": dc.atom(nextp, *head_args), "body": body, "let": []}
+        if ht is not None:
+            c["ht"] = ht
+        clauses.append(c)
+        layers.append([nextp])
+        nextp += 1
+
+    def probe(a, b):
+        lo = rng.randint(a, b)
+        hi = rng.randint(lo, b)
+        forms = ["ann", "ann", "point"]
+        if hi <= NOW_DAY:
+            forms += ["dm", "dm", "bm"]
+        if lo >= NOW_DAY:
+            forms += ["dp", "dp", "bp"]
+        f = rng.choice(forms)
+        feats.add("probe-" + f)
+        arg = X if rng.random() < 0.8 else dc.cst(atoms[0])
+        hargs = [X] if arg is X else [dc.cst(atoms[0])]
+        if f == "ann":
+            body = [["tatom", dc.atom(on, arg), None, [["ts", day(lo)], ["ts", day(hi)]]]]
+            if rng.random() < 0.3:
+                body.append(["atom", dc.atom(other, arg)])
+            rule(hargs, body, [["ts", day(lo)], ["ts", day(hi)]] if rng.random() < 0.3 else None)
+        elif f == "point":
+            rule(hargs, [["tatom", dc.atom(on, arg), None, [["ts", day(lo)]]]])
+        elif f in ("dm", "bm"):
+            rule(hargs, [["tatom", dc.atom(on, arg), [f, "%dd" % (NOW_DAY - hi), "%dd" % (NOW_DAY - lo)], None]])
+        else:
+            rule(hargs, [["tatom", dc.atom(on, arg), [f, "%dd" % (lo - NOW_DAY), "%dd" % (hi - NOW_DAY)], None]])
+    for a, b in ivs:
+        probe(a, b)
+    for _ in range(rng.randint(0, 2)):
+        a = rng.randint(0, 80)
+        probe(a, a + rng.randint(0, 10))       # anywhere: may straddle, may miss
+    if rng.random() < 0.5:
+        rule([X], [["tatom", dc.atom(on, X), None, [tS, tE]]], [tS, tE])
+        feats.add("copy")
+    rng.shuffle(clauses)
+    return {"clauses": clauses, "layers": layers, "init": init, "pre": [], "features": sorted(feats) + ["temporal"],
+            "temporal": True, "main_atom": atoms[0]}
+
+
+def presentations_factorder(prog, rng):
+    """Presentations that differ in the ORDER OF THE BASE FACTS only (rules stay in place), then
+    the usual renamed / packaged ones."""
+    facts = prog["init"]
+    main = [i for i, f in enumerate(facts) if f["p"] == 0 and f["args"][0] == prog["main_atom"]]
+
+    def start(i):
+        return facts[i]["iv"][0]
+    orders = []
+    if len(main) == 3:
+        orders = [("order%d" % k, list(pm)) for k, pm in enumerate(itertools.permutations(main))]
+    else:
+        orders = [("asc", sorted(main, key=start)), ("desc", sorted(main, key=start, reverse=True))]
+        for k in range(4):
+            pm = main[:]
+            rng.shuffle(pm)
+            orders.append(("shuffle%d" % k, pm))
+        # left-heavy runs: a descending block behind an ascending one
+        asc = sorted(main, key=start)
+        h = len(asc) // 2
+        orders.append(("zigzag", asc[h:][::-1] + asc[:h][::-1]))
+    ps = [pres_base(prog)]
+    for kind, pm in orders:
+        q = dict(prog)
+        fs = list(facts)
+        for slot, src in zip(main, pm):
+            fs[slot] = facts[src]
+        q["init"] = fs
+        p = pres_base(q)
+        p.kind = "facts-" + kind
+        ps.append(p)
+    ps += [pres_perm(prog, rng), pres_renamed(prog, rng), pres_pkg1(prog, rng)]
+    return ps
+
+
 # ------------------------------------------------------------------ Go side
 def go_case(pres, stores, det, repeat, temporal):
     return {"units": pres.units, "pre": pres.pre, "stores": stores, "det": det, "repeat": repeat,
@@ -622,7 +894,8 @@ def run(ck):
         if entry.get("kind") == "text":
             items.append({"origin": "corpus:" + name, "prog": None, "temporal": entry.get("temporal", False),
                           "pres": text_entry_presentations(entry), "expect_count": entry.get("expect_count"),
-                          "repeat": entry.get("repeat", 50), "features": ["corpus"]})
+                          "repeat": entry.get("repeat", 50), "features": ["corpus"],
+                          "wraps": entry.get("extra_stores")})
         else:
             prog = entry["program"]
             items.append({"origin": "corpus:" + name, "prog": prog, "temporal": bool(prog.get("temporal")),
@@ -642,7 +915,38 @@ def run(ck):
     nagg = ck.n(8, 150)
     for _ in range(nagg):
         prog = gen_aggregating(rng)
+        k1, k2 = rng.choice(ALL_STORES), rng.choice(ALL_STORES)
         items.append({"origin": "random-aggregate", "prog": prog, "temporal": False, "pres": presentations(prog, rng),
+                      "features": prog["features"], "extra_base_stores": ["tee-over:" + k1, "merged-over:" + k2]})
+    # ---- round 3: the caller's store is not empty (facts the program re-derives, aggregated)
+    npre = ck.n(10, 150)
+    for _ in range(npre):
+        prog = gen_prefilled(rng)
+        ps = presentations(prog, rng)
+        ps.insert(1, pres_intext(prog))
+        plans = []
+        for j in range(len(ps)):
+            if j == 0:
+                ks = rng.sample(ALL_STORES, 3)
+                st = ALL_STORES + [w + ":" + k for w, k in zip(WRAPS, ks)] + ["tee-over:teeing", "merged-over:merged"]
+                if not ck.quick:
+                    st += [w + ":" + k for w in WRAPS for k in rng.sample(ALL_STORES, 2)]
+                plans.append((st, [rng.random() < 0.5] if ck.quick else [False, True], 1 if ck.quick else 2))
+            elif j == 1:
+                plans.append((["simple", rng.choice(ALL_STORES)], [rng.random() < 0.5], 1))
+            else:
+                plans.append(([rng.choice(ALL_STORES), rng.choice(WRAPS) + ":" + rng.choice(ALL_STORES)],
+                              [rng.random() < 0.5], 2))
+        items.append({"origin": "random-prefilled", "prog": prog, "temporal": False, "pres": ps, "plans": plans,
+                      "features": prog["features"]})
+    # ---- round 3: one atom with many intervals, base facts in every order, concrete sub-interval queries
+    nmulti = ck.n(16, 250)
+    for _ in range(nmulti):
+        prog = gen_temporal_multi(rng)
+        ps = presentations_factorder(prog, rng)
+        plans = [((["simple", rng.choice(ALL_STORES[1:])], [False, True], 1) if j == 0 else
+                  ([rng.choice(ALL_STORES)], [rng.random() < 0.5], 1 if ck.quick else 2)) for j in range(len(ps))]
+        items.append({"origin": "random-temporal-multi", "prog": prog, "temporal": True, "pres": ps, "plans": plans,
                       "features": prog["features"]})
     nexh = 0
     if not ck.quick:
@@ -670,8 +974,12 @@ def run(ck):
     go_cases, owner = [], []
     for i, it in enumerate(items):
         for j, pres in enumerate(it["pres"]):
-            if "repeat" in it:
+            if "plans" in it:
+                stores, det, rep = it["plans"][j]
+            elif "repeat" in it:
                 stores = ["simple", rng.choice(ALL_STORES[1:])] if it["origin"].startswith("corpus") else ["simple"]
+                if it.get("wraps") and j == 0:
+                    stores = stores + it["wraps"]
                 det, rep = [False, True], max(1, it["repeat"] // (2 * len(stores)) + 1)
                 if it["origin"].startswith("exhaustive"):
                     det, rep = [False, True], 1
@@ -687,6 +995,10 @@ def run(ck):
                 stores = ALL_STORES if j == 0 else rng.sample(ALL_STORES, 2)
                 det = [False, True]
                 rep = 4 if j == 0 else 2
+            if j == 0 and it["origin"].startswith("random") and "plans" not in it:
+                # round 3: re-running on the same store; for aggregating programs a second evaluation on a
+                # TeeingStore / MergedStore stacked over the store that already holds every result
+                stores = list(stores) + it.get("extra_base_stores", []) + ["rerun:" + rng.choice(ALL_STORES)]
             go_cases.append(go_case(pres, stores, det, rep, it["temporal"]))
             owner.append((i, j))
     outs = run_go_parallel(ck, go_cases)
@@ -711,6 +1023,7 @@ def run(ck):
                 per_item[i].append((j, g, ("unmapped:%s" % e,)))
     terms, twhere = [], []
     disagreements = 0
+    by_origin = {}
     outcome_classes = {}
     pres_kinds = {}
     sizes = []
@@ -742,6 +1055,8 @@ def run(ck):
                 bad = ref          # every run agrees but facts are missing: still report (regression of a fixed defect)
         if bad is not None:
             disagreements += 1
+            okey = it["origin"].split(":")[0]
+            by_origin[okey] = by_origin.get(okey, 0) + 1
             if len(ck.violations) < 5:
                 pa, pb = it["pres"][ref[0]], it["pres"][bad[0]]
 
@@ -789,6 +1104,8 @@ def run(ck):
             twhere.append((i, "same"))
     verdicts = ck.run_coq("C05", "judge", terms, shard=max(10, len(terms) // 16 + 1))
     ck.log("model side done: %d terms" % len(terms))
+    if by_origin:
+        ck.log("programs with disagreeing runs / presentations, by origin: %s" % json.dumps(by_origin, sort_keys=True))
     vc = {}
     for (i, what), v in zip(twhere, verdicts):
         vc["%s:%d" % (what, v)] = vc.get("%s:%d" % (what, v), 0) + 1
@@ -841,13 +1158,14 @@ def run(ck):
            "distinct_nontrivial": len(nontrivial),
            "rule": "evaluations = engine runs (parse + Analyze + EvalProgram each); a program counts once per distinct base "
                    "text; non-trivial = recursion, negation, comparison, same-round join, temporal annotation or operator "
-                   "present (corpus %d, random plain %d, random temporal %d, random aggregating %d, exhaustive %d)" % (ncorpus, nplain, ntemp, nagg, nexh),
+                   "present (corpus %d, random plain %d, random temporal %d, random aggregating %d, pre-filled store + aggregation %d, "
+                   "one atom with 3-6 intervals in every base-fact order %d, exhaustive %d)" % (ncorpus, nplain, ntemp, nagg, npre, nmulti, nexh),
            "exhaustive": nexh > 0,
            "exhaustive_scope": ("all 24 line orders x all 24 assignments of the predicate names a,b,c,d for the 4-line temporal "
                                 "chain (F4 shape) and for the same-round join program (F1 shape), each plain and "
                                 "WithDeterministicOrder" if nexh else ""),
            "runs_per_presentation_kind": pres_kinds, "outcomes": outcome_classes, "features": feats,
-           "rejected_by_analysis": nrej, "disagreements": disagreements, "model_verdicts": vc,
+           "rejected_by_analysis": nrej, "disagreements": disagreements, "disagreements_by_origin": by_origin, "model_verdicts": vc,
            "f4_witness_runs_all_4_facts": f4_runs,
            "facts_per_result": {"max": max(sizes or [0]), "mean": round(sum(sizes) / max(1, len(sizes)), 1)},
            "coqchk": coqchk,
@@ -881,7 +1199,8 @@ def replay(ck, path):
     cases = []
     for side in ("a", "b"):
         s = rep[side]
-        cases.append({"units": s["units"], "pre": s.get("pre", ""), "stores": ALL_STORES, "det": [False, True], "repeat": 4,
+        cases.append({"units": s["units"], "pre": s.get("pre", ""),
+                      "stores": ALL_STORES + [w + ":" + k for w in WRAPS for k in ("simple", "teeing")], "det": [False, True], "repeat": 4,
                       "temporal": temporal, "now": NOW, "limit": LIMIT, "timeout_ms": 20000})
     outs = ck.run_go("c05", cases)
     bad = False
